@@ -18,6 +18,15 @@ CHECKS = {
  "C10": ("3.C10", "real proto.STUNConn (and TCPAllocation.BindConnection) on a simulated stream: frame sequences (STUN bodies of 4-aligned lengths incl. 0xFFEC+, ChannelData payloads 0..8, 1400..1600, 65528..65535, cookie-prefixed payloads) under byte-at-a-time, fixed, random and coalesced segmentation and arbitrary read sizes, FIN/RST/garbage tails; returned frames must equal an independent reference framer's, be returned at quiescence once complete, consume >= 1 byte", "real internal/proto STUNConn and internal/client BindConnection; simulated TCP stream, clock, scheduler"),
  "C19": ("3.C19", "every response must carry the transaction id of a message received from the address it is sent to; Binding/Allocate mapped address = simnet ground truth; relayed address really bound, unshared, of the requested family; lifetime as then observed; same-id Allocate retransmission -> identical attributes and nothing created; new-id Allocate -> 437", SRV),
 }
+CLI = "real turn.Client / internal/client on a simulated socket, clock and scheduler against a scripted TURN server (own STUN codec via pion/stun); sync.Mutex replaced by simsync"
+CHECKS.update({
+ "C12": ("3.C12", "every subset of the 7 transmissions lost, a response after the k-th transmission at any delay (before/after the next timer, after failure), duplicates, foreign transaction ids, 1..5 overlapping transactions, Close at any step, write error on the k-th transmission, RTO 1 ms..1.6 s; each call returns once, with the first delivered response of its own id or an error, transmissions exactly at t0+sum min(RTO*2^i,1.6 s), at most 7, failure at the 8th instant, nothing sent afterwards, table empty", CLI),
+ "C13": ("3.C13", "WriteTo/ReadFrom/SetReadDeadline/Close from concurrent application actors, server reactions success/400/403/438/silence/late to CreatePermission and ChannelBind, injected Data indications / ChannelData on known and unknown channels / ConnectionAttempt bursts larger than the queues; wire order respects delivered CreatePermission/ChannelBind successes, channel numbers distinct and in range, reads equal relayed payloads with the right address, deadlines and Close release blocked readers at that instant, a liveness transaction after the bursts", CLI),
+ "C14": ("3.C14", "real client against the real server for 1-8 virtual hours, 1-8 peers, constant to hours-idle traffic, server timeouts compatible with the client's refresh cadence, budgeted loss/duplication/delay on the control channel; every probe in both directions is delivered across the allocation/permission/channel/nonce horizons and AllocationCount drops after Close (known finding KF-C14-1)", SRV + "; real turn.Client"),
+ "C15": ("3.C15", "operation histories cut at every prefix by each teardown cause (expiry, Refresh 0, control-connection close/reset, relay read/write/accept error, listener write error, Server.Close), optionally during a slow lifecycle callback, UDP and TCP allocations; open relay sockets/listeners/peer connections = those of live allocations at every idle point, AllocationCount within the model's bounds, created/deleted callbacks balance, nothing (sockets, goroutines with pion/turn frames, held locks) remains 5 s after Server.Close", SRV),
+ "C16": ("3.C16", "Connect to listening/refusing/vetoed peers, duplicate Connect, inbound peer connections with and without permission, ConnectionBind with right/wrong/foreign id, right/wrong user, twice, at 29 s/29.9 s/30.1 s/31 s, byte streams both ways under arbitrary segmentation and read sizes, closes/resets from either side; ids unique and backed by a real simnet connection from/at the relayed address, one bind per id by the owner within 30 s, unbound connections closed at +30 s, streams equal in content and order, 446 on duplicate Connect and no lock left held", SRV),
+ "C18": ("3.C18", "server-world histories (incl. teardown and TCP-relay plans) with stalls at callbacks, logger calls, socket calls and every lock acquisition/release; no panic (worker death is attributed to the persisted plan), no acquisition still blocked and no lock held at idle points / at the end (simsync registry with acquisition sites); a second pass runs on a -race build", SRV + "; the race pass is limited by the happens-before edges the scheduler itself introduces (DESIGN.md section 6)"),
+})
 TECH = "deterministic simulation with fault injection (seeded plans, simulated network/clock/scheduler, reference-model oracle, ddmin-minimised replay files)"
 
 checks = []
